@@ -4,6 +4,7 @@ package diodecheck
 
 import (
 	"encoding/json"
+	"errors"
 	"fmt"
 	"io"
 	"log"
@@ -48,6 +49,7 @@ type Config struct {
 	Early     bool   `json:"early_close,omitempty"`       // Close right after the last Write returned, without waiting for quiescence
 	NilAlert  bool   `json:"nil_alerter,omitempty"`       // NewWriter(w, size, poll, nil)
 	BigCap    bool   `json:"big_cap,omitempty"`           // producers write from a reused buffer of capacity 128 KiB
+	Errs      string `json:"writer_errors,omitempty"`     // what the wrapped writer returns: "" (len, nil) | zero: (0, err) on every 2nd call | partial: (len/2, err) on every 2nd call | closed: an error wrapping os.ErrClosed on the 2nd call | temporary: a Temporary() error from the 2nd call on
 	TwoClose  bool   `json:"two_closers,omitempty"`       // a second thread calls Close concurrently (deferred Close + Fatal's Close)
 	Reentrant bool   `json:"reentrant_alerter,omitempty"` // the alerter logs through the same diode.Writer (it runs on the consumer)
 }
@@ -71,6 +73,9 @@ func (c Config) String() string {
 	}
 	if c.TwoClose {
 		m += " two-closers"
+	}
+	if c.Errs != "" {
+		m += " writer-errors=" + c.Errs
 	}
 	return fmt.Sprintf("P%d W%d size%d %s writer=%s", c.P, c.W, c.Size, m, c.Writer)
 }
@@ -122,6 +127,7 @@ type wrapped struct {
 	sent    map[string]bool
 	closed  *bool
 	blocked bool
+	calls   int
 }
 
 func (w *wrapped) Write(p []byte) (int, error) {
@@ -155,8 +161,35 @@ func (w *wrapped) Write(p []byte) (int, error) {
 		w.r.mutated = true
 	}
 	w.inside--
+	w.calls++
+	switch w.cfg.Errs {
+	case "zero":
+		if w.calls%2 == 0 {
+			return 0, errWrapped
+		}
+	case "partial":
+		if w.calls%2 == 0 {
+			return len(p) / 2, errWrapped
+		}
+	case "closed":
+		if w.calls == 2 {
+			return 0, &os.PathError{Op: "write", Path: "/var/log/app.log", Err: os.ErrClosed}
+		}
+	case "temporary":
+		if w.calls >= 2 {
+			return 0, tempErr{}
+		}
+	}
 	return len(p), nil
 }
+
+var errWrapped = errors.New("wrapped writer failed")
+
+type tempErr struct{}
+
+func (tempErr) Error() string   { return "resource temporarily unavailable" }
+func (tempErr) Temporary() bool { return true }
+func (tempErr) Timeout() bool   { return true }
 
 func trunc(s string) string {
 	if len(s) > 40 {
@@ -592,6 +625,9 @@ func genConfig(rt *rapid.T, small bool) Config {
 	c.Early = (prop == "C11" || prop == "C12") && rapid.Bool().Draw(rt, "early")
 	c.NilAlert = rapid.IntRange(0, 7).Draw(rt, "nilalert") == 0
 	c.BigCap = prop == "C10" && rapid.IntRange(0, 5).Draw(rt, "bigcap") == 0
+	if c.Writer != "blocks" && rapid.IntRange(0, 3).Draw(rt, "errs") == 0 {
+		c.Errs = rapid.SampledFrom([]string{"zero", "partial", "closed", "temporary"}).Draw(rt, "errkind")
+	}
 	c.TwoClose = (prop == "C11" || prop == "C12") && rapid.IntRange(0, 3).Draw(rt, "twoclose") == 0
 	c.Reentrant = !c.NilAlert && rapid.IntRange(0, 4).Draw(rt, "reentrant") == 0
 	return c
@@ -657,6 +693,10 @@ func dfsConfigs() []struct {
 	}
 	if prop == "C11" || prop == "C12" {
 		out = append(out, cb{Config{P: 1, W: 2, Size: 2, Writer: "returns", Early: true, TwoClose: true}, 2}, cb{Config{P: 1, W: 2, Size: 2, Poller: true, Writer: "returns", Early: true, TwoClose: true}, 2})
+	}
+	// a wrapped writer that reports failures: what it returns must not change what it is handed
+	for _, ek := range []string{"zero", "partial", "closed", "temporary"} {
+		out = append(out, cb{Config{P: 1, W: 3, Size: 4, Writer: "returns", Errs: ek}, 2}, cb{Config{P: 1, W: 3, Size: 4, Poller: true, Writer: "returns", Errs: ek}, 2})
 	}
 	// lapping with an alerter that writes to its own diode (waiter and poller)
 	out = append(out, cb{Config{P: 1, W: 3, Size: 1, Writer: "returns", Reentrant: true}, 2}, cb{Config{P: 1, W: 3, Size: 1, Poller: true, Writer: "returns", Reentrant: true}, 2})
